@@ -96,6 +96,36 @@ CHECKS = {
         "Blank float -> NaN, int -> -1, text -> '' at exactly that leaf, header attributes absent, nothing else changes, no exception; every spare/blank/reserved area and length-dependent padding may hold any content of its class without changing any leaf of the tree (modelled or not).",
         "doubtful fields are treated as required (exempt); text areas printable ASCII, numeric spares numbers",
     ),
+    "C07": (
+        "model_checking",
+        "exhaustive enumeration of the cache configuration space (product x producer x location x filesystem x rpc at write x rpc at read), each configuration executed on the real code with a differential tree oracle and an I/O-event monitor",
+        "All 312 configurations: caches are produced by the open option and/or the real CLI main(), then the product is opened uncached and cached; trees must be identical (incl. preferred chunks and the pixel-read pattern of the current rpc), the image file may not be touched during a cached open (mcfs events / CPython audit events), pixel loads must hit the image on the same filesystem, use_cache=False must not touch any index even when every index is poisoned with another image's valid document.",
+        "I/O on memory:// is not observable (tree equality only); adjacent indexes of non-local products are produced on a local copy and uploaded",
+    ),
+    "C08": (
+        "exploration",
+        "exhaustive enumeration of generated hierarchies (dtype x shape x value alphabet rotated through every position x byte order x container) and reader-produced groups through encode -> decode, in process and in a fresh interpreter that receives only the text",
+        "1197 generated documents + reader groups of both levels with extreme values; decode(encode(g)) must equal g leaf for leaf (dtype up to byte order, shape, bytes with NaN by class and -0.0 != 0.0, attrs with tuple/list distinction, dims, paths, variable order, image-array fields).",
+        "lists compare as numpy.asarray(list); one array never spans more than 2^63 time units; (0, n) empties outside the alphabet",
+    ),
+    "C09": (
+        "fault_enumeration",
+        "crash-prefix enumeration: every byte prefix of every index document at every location is planted and the recovery sequence (default open, create_cache open, cached open) is executed on the real code",
+        "Post-crash states of an in-place write are the byte prefixes 0..len; all ~33k prefixes x 2 locations go through sar_image.open_image, the selected (quick) or all (thorough) prefixes through open_alos2 with tree equality against the uncached reference, repair check (user-cache file complete after create_cache=True) and no re-read of line records afterwards; torn+complete pairs at both locations.",
+        "single-file prefix model (no block reordering); a concurrent writer exposes the same states; no SIGKILL sampling",
+    ),
+    "C10": (
+        "model_checking",
+        "explicit-state search over operation histories on the real code: BFS to closure over canonical cache/process states, all depth-2 histories literally, all histories to depth 3 (4 in the thorough tier) as a tree walk, invariants checked on every transition",
+        "20 operations (12 opens, shared-options open, option-less open, 4 CLI creations, 2 deletions) on level 1.1/1.5 products on a local directory and on mcfs. Every transition checks: tree == pristine uncached tree of that step's rpc, caller option dicts and default objects unchanged, product bit-identical, writes only *.index in the user cache dir and only when asked (audit events), library module-level state digest unchanged. Closure reached at 16 states per product.",
+        "reference trees computed in the worker before its first operation; depth beyond 3/4 only through closure",
+    ),
+    "C19": (
+        "model_checking",
+        "stateless model checking of real threads under a cooperative scheduler: preemption-bounded DFS (iterative context bounding) over filesystem, lock and line-level yield points, every schedule executed on the real code and compared with the sequential result",
+        "7 scenarios (same variable, different variables, pickled copies, three threads); all schedules with <= 3 preemptions (2 threads) / <= 2 (3 threads) at mcfs+lock yield points, plus line-granular yield points inside the library at bound 1 (quick) / 2 (thorough). The real xarray SerializableLock is kept (only its primitive is made cooperative). Deadlock = no enabled thread. Schedules are replayed to prove determinism.",
+        "preemption inside C code is not modelled; a free-running real-thread pass is a non-deciding supplement",
+    ),
 }
 
 PENDING = {}
